@@ -15,7 +15,10 @@ type Options struct {
 	Deadline    time.Time              // zero = none
 	LowPriority func(name string) bool // goroutines (by spawn-site name) that are only scheduled when nothing else is enabled
 	NoCache     bool                   // disable the state cache (for cross-checking the reduction)
-	NoSleep     bool                   // disable the sleep sets (for cross-checking the reduction)
+	Sleep       bool                   // EXPERIMENTAL sleep sets over runs (sleep.go); off by default - the state cache alone decides
+	Shared      Visited                // visited-state table shared by several explorer processes (nil: private map)
+	Shuffle     uint64                 // != 0: pseudo-random option order derived from this seed (parallel explorers diverge)
+	Watch       []Choice               // debugging: report why the explorer does not follow this schedule
 	Prefix      []Choice               // explore only the subtree below this choice prefix (parallel workers)
 	Record      bool                   // keep traces for every execution (slow; replay / samples)
 }
@@ -74,6 +77,13 @@ type node struct {
 	opts    []option
 	idx     int
 	started bool // the option at idx has been entered
+}
+
+// Visited is a set of expanded states shared by several explorers.  Covered reports whether the state
+// (key, goroutine entitled to continue) was already claimed with at least `left` remaining preemptions;
+// otherwise it claims it for the caller, who then has to expand it.
+type Visited interface {
+	Covered(key [2]uint64, prev uint64, left int8) bool
 }
 
 type cacheKey struct {
@@ -137,6 +147,16 @@ func (c *controller) pick(w *World, prev *G) (*G, int32) {
 			return nil, 0
 		}
 		n := node{opts: append([]option(nil), opts...)}
+		if c.opts.Shuffle != 0 && len(n.opts) > 1 {
+			// deterministic pseudo-random order (function of the seed and the state), so that explorer
+			// processes sharing a visited table spread over the tree
+			r := mix(c.opts.Shuffle, w.key[0])
+			for i := len(n.opts) - 1; i > 0; i-- {
+				r = mix(r, uint64(i))
+				j := int(r % uint64(i+1))
+				n.opts[i], n.opts[j] = n.opts[j], n.opts[i]
+			}
+		}
 		var e effect
 		for i := range n.opts {
 			o := &n.opts[i]
@@ -160,8 +180,9 @@ func (c *controller) pick(w *World, prev *G) (*G, int32) {
 				w.end(Diverged)
 				return nil, 0
 			}
-			if !c.opts.NoSleep && asleep(w.sleep, o) {
+			if c.opts.Sleep && asleep(w.sleep, o) {
 				c.sleepSkipped++
+				c.watch(w, d, o, "asleep")
 				continue
 			}
 			var e effect
@@ -175,12 +196,20 @@ func (c *controller) pick(w *World, prev *G) (*G, int32) {
 				// sleep set contained in the present one is dropped.
 				ck := cacheKey{k: o.key, prev: g.id}
 				left := int8(remaining - int(o.cost))
-				sh := sleepHashes(succ)
-				if v, ok := c.cache[ck]; ok && v.left >= left && subset(v.sleep, sh) {
-					c.skipped++
-					continue
+				if c.opts.Shared != nil {
+					if c.opts.Shared.Covered(o.key, g.id, left) {
+						c.skipped++
+						continue
+					}
+				} else {
+					sh := sleepHashes(succ)
+					if v, ok := c.cache[ck]; ok && v.left >= left && subset(v.sleep, sh) {
+						c.skipped++
+						c.watch(w, d, o, "covered by the state cache")
+						continue
+					}
+					c.cache[ck] = cacheVal{left: left, sleep: sh}
 				}
-				c.cache[ck] = cacheVal{left: left, sleep: sh}
 			}
 			break
 		}
@@ -201,7 +230,7 @@ func (c *controller) pick(w *World, prev *G) (*G, int32) {
 		w.end(Diverged)
 		return nil, 0
 	}
-	if !c.opts.NoSleep {
+	if c.opts.Sleep {
 		var e effect
 		w.effectOf(g, o.c.Alt, &e)
 		w.sleep = c.successorSleep(w, n, n.idx, g, &e, prev)
@@ -230,7 +259,7 @@ func asleep(sleep []sleepEntry, o *option) bool {
 // successorSleep is the sleep set after taking option i of node n: the current sleep set plus the earlier
 // explored siblings, minus everything woken by the operation.
 func (c *controller) successorSleep(w *World, n *node, i int, g *G, e *effect, prev *G) []sleepEntry {
-	if c.opts.NoSleep {
+	if !c.opts.Sleep {
 		return nil
 	}
 	cur := w.sleep
@@ -500,6 +529,10 @@ func Explore(body func(), opts Options, onExec func(*Execution) bool) Stats {
 			st.Stopped = "time budget"
 			break
 		}
+		if t, ok := opts.Shared.(*SharedTable); ok && t.IsFull() {
+			st.Stopped = "visited table full"
+			break
+		}
 	}
 	st.CacheStates = int64(len(c.cache))
 	st.Skipped = c.skipped
@@ -513,4 +546,26 @@ func Replay(body func(), choices []Choice, opts Options) *Execution {
 	opts.Record = true
 	c := &controller{opts: opts, replay: true, fixed: choices}
 	return c.run(body)
+}
+
+// watch reports (debugging aid) when the option that the watched schedule takes at depth d is skipped.
+func (c *controller) watch(w *World, d int, o *option, why string) {
+	if len(c.opts.Watch) <= d || c.opts.Watch[d] != o.c || len(w.choices) != d {
+		return
+	}
+	for i, ch := range w.choices {
+		if c.opts.Watch[i] != ch {
+			return
+		}
+	}
+	fmt.Printf("WATCH: at decision %d option g=%s alt=%d is %s\n", d, w.gs[o.c.G].name, o.c.Alt, why)
+	for _, s := range w.sleep {
+		name := "?"
+		for _, g := range w.gs {
+			if g.id == s.gid {
+				name = g.name
+			}
+		}
+		fmt.Printf("   sleeping: %s alt=%d fp=%v\n", name, s.alt, s.fp)
+	}
 }
